@@ -83,51 +83,57 @@ def unencode(ctx, facts, cfg):
         if not undo_paths:
             ctx.violation(R, 'role-missing:undo', 'unrecognised idiom: %s' % (RL.problems[:1] or ['cannot identify the re-packing method of the work objects'])[0], fn=p, cfg=cfg)
             continue
+        cg = core.callgraph(facts)
+        reaches_undo = {}
+
+        def reaches(q):
+            if q not in reaches_undo:
+                seen, _ = cg.reachable([q]) if q in facts.fns else (set(), None)
+                reaches_undo[q] = bool(seen & undo_paths)
+            return reaches_undo[q]
         for b, t in body.calls():
             q = t['callee'].get('path') or ''
             d = t['callee'].get('decl') or ''
-            if q in undo_paths:
+            if q in undo_paths or (t['callee'].get('local') and q in facts.fns and reaches(q)):
                 U.append((b, t))
             elif d in TRANSFORM_DECLS or q in TRANSFORM_PATHS or c05.transform_wrapper(facts, q) or is_transform(facts, body, t):
                 T.append((b, t))
         errs, oks = core.result_exits(body)
         ok_blocks = [b for (b, k, d) in oks if k == 'ctor']
         problems = []
-        if len(U) != 1:
-            problems.append('%d calls of undo_last_chunk_encoding, expected exactly 1 (twice corrupts, never leaves the final block split)' % len(U))
+        if not U:
+            problems.append('no call re-packs the final block (undo of the last-chunk encoding is never applied)')
         if not T:
             problems.append('no transform call found (unrecognised idiom)')
-        if len(U) == 1 and T:
-            ub, ut = U[0]
-            recv = core.show(body.canon_op(ut['args'][0]))
-            if 'self' not in recv or 'work' not in recv:
-                problems.append('undo is applied to %s, not self.work' % recv)
-            if ub in reach_after(body, ub):
-                problems.append('undo_last_chunk_encoding is inside a loop')
-            after = reach_after(body, ub)
-            late = [t for (b, t) in T if b in after]
-            if late:
-                problems.append('a transform (%s at %s) can run after the re-packing' % (core.short(late[0]['callee'].get('path') or late[0]['callee'].get('decl')), late[0]['line']))
-            main_ok, idle_ok = [], []
+        if U and T:
+            ublocks = {b for b, _ in U}
             tblocks = {b for b, _ in T}
+            for ub, ut in U:
+                recv = core.show(body.canon_op(ut['args'][0]))
+                if (ut['callee'].get('path') in undo_paths) and ('self' not in recv or 'work' not in recv):
+                    problems.append('undo is applied to %s, not self.work' % recv)
+                if ub in reach_after(body, ub):
+                    problems.append('the re-packing is inside a loop')
+            main_ok, idle_ok = [], []
             for ob in ok_blocks:
                 pre = any(ob in reach_after(body, tb) or ob == tb for tb in tblocks)
                 (main_ok if pre else idle_ok).append(ob)
             if not main_ok:
                 problems.append('no Ok exit follows the transforms')
             for ob in main_ok:
-                if not body.dominates(ub, ob):
+                lo, hi = count_on_paths(body, ob, ublocks)
+                if hi == 0 or lo == 0:
                     problems.append('an Ok exit after the transforms is reachable without the re-packing')
-                # every transform->ok path passes U
-                for tb in tblocks:
-                    if ob in body.reachable_from(tb, stop=frozenset({ub})) and ob != ub and tb != ub:
-                        r = body.reachable_from(tb, stop=frozenset({ub}))
-                        if ob in r:
-                            problems.append('a path from a transform to the Ok exit bypasses the re-packing')
-                            break
-            for ob in idle_ok:
-                if ob in after:
-                    problems.append('the nothing-to-do Ok exit passes the re-packing (it would corrupt untouched shards)')
+                if hi is None or hi > 1:
+                    problems.append('the final block can be re-packed %s times on a path to the Ok exit (%s): twice corrupts it'
+                                    % ('several' if hi is None else hi, ', '.join('%s at %s' % (core.short(t['callee'].get('path') or '?'), t['line']) for b, t in U)))
+                # after the (last) re-packing on the way to this exit no transform may run
+                for ub in ublocks:
+                    if ob in reach_after(body, ub) or ob == ub:
+                        after = reach_after(body, ub)
+                        late = [t for (b, t) in T if b in after and (ob in reach_after(body, b) or ob == b)]
+                        if late:
+                            problems.append('a transform (%s at %s) can run after the re-packing' % (core.short(late[0]['callee'].get('path') or late[0]['callee'].get('decl')), late[0]['line']))
             want_idle = 1 if 'Decoder' in p else 0
             if len(idle_ok) != want_idle:
                 problems.append('%d Ok exits without transforms, expected %d' % (len(idle_ok), want_idle))
@@ -135,7 +141,7 @@ def unencode(ctx, facts, cfg):
             for pb in sorted(set(problems)):
                 ctx.violation(R, re.sub(r'[^A-Za-z_]+', '-', pb)[:70], '%s: %s' % (core.short(p), pb), site=fn.span, fn=p, cfg=cfg)
         else:
-            ctx.ok(R, '%s@%s' % (core.short(p), cfg), {'undo_at': U[0][1]['line'], 'transforms_before': len(T)})
+            ctx.ok(R, '%s@%s' % (core.short(p), cfg), {'repack_at': [t['line'] for b, t in U], 'transforms_before': len(T)})
     ctx.floor(R, 4, n, 'codec functions', cfg=cfg)
 
 
@@ -157,6 +163,44 @@ def is_transform(facts, body, t):
             if g is not None and g.name in ('copy_within',):
                 return True
     return False
+
+
+def count_on_paths(body, target, marked):
+    """(min, max) number of marked blocks on paths entry -> target; max None if a cycle through a marked
+    block is involved.  Back edges are ignored (loops contain no re-packing: checked separately)."""
+    import functools, sys
+    sys.setrecursionlimit(10000)
+    reach_t = {b for b in range(body.n) if target in body.reachable_from(b)}
+    memo = {}
+    onstack = set()
+
+    def go(b):
+        if b == target:
+            v = 1 if b in marked else 0
+            return (v, v)
+        if b in memo:
+            return memo[b]
+        if b in onstack:
+            return None
+        onstack.add(b)
+        lo = hi = None
+        for s2 in body.succs(b):
+            if s2 not in reach_t:
+                continue
+            r = go(s2)
+            if r is None:
+                continue
+            lo = r[0] if lo is None else min(lo, r[0])
+            hi = r[1] if hi is None else max(hi, r[1])
+        onstack.discard(b)
+        if lo is None:
+            memo[b] = None
+            return None
+        v = 1 if b in marked else 0
+        memo[b] = (lo + v, hi + v)
+        return memo[b]
+    r = go(0)
+    return r if r else (0, 0)
 
 
 def reach_after(body, b):
